@@ -104,12 +104,37 @@ def status():
     return head + '\n'.join(rows)
 
 
+def fixes():
+    """the fix: commits applied to /repo and the findings still listed, from known_findings.txt"""
+    import subprocess, re
+    kf = open(os.path.join(HERE, 'known_findings.txt')).read().split('\n')
+    try:
+        log = subprocess.run(['git', '-C', '/repo', 'log', '--format=%h %s'], stdout=subprocess.PIPE, text=True).stdout.split('\n')
+    except Exception: log = []
+    subj = dict((l.split(' ', 1)[0], l.split(' ', 1)[1]) for l in log if ' ' in l)
+    rows = []
+    for l in kf:
+        m = re.match(r'fixed: property=(\S+) (\S+) (.*)', l)
+        if m:
+            h = m.group(2)
+            s_ = subj.get(h, next((v for k, v in subj.items() if k.startswith(h) or h.startswith(k)), '(commit subject not found)'))
+            rows.append('| %s | `%s` | %s |' % (m.group(1), h, s_.replace('|', '/')[:200]))
+    out = '| property whose check found it | commit in /repo | commit subject |\n|---|---|---|\n' + '\n'.join(rows)
+    rows2 = []
+    for l in kf:
+        m = re.match(r'finding: property=(\S+) key=(\S+) (.*)', l)
+        if m: rows2.append('| %s | `%s` | %s |' % (m.group(1), m.group(2), ' '.join(m.group(3).split())[:260].replace('|', '/')))
+    out += '\n\nFindings still listed (recorded, not repaired; each prints a `KNOWN-FINDING:` line when its witness reproduces):\n\n| property | key | what fails |\n|---|---|---|\n' + '\n'.join(rows2)
+    return out
+
+
 def main():
     p = os.path.join(HERE, 'DESIGN.md')
     text = open(p).read()
     text = block('per-check reports', reports(), text)
     text = block('seeded changes', seeded(), text)
     text = block('status table', status(), text)
+    text = block('repo fixes', fixes(), text)
     open(p, 'w').write(text)
     print('DESIGN.md updated')
 
